@@ -12,8 +12,12 @@ def normalize(s):
 
 
 def title_unspecified(s):
-    """whether tab / newline (or other non-space whitespace) separates words is not fixed by 'title under 5 words'"""
-    return any(ch.isspace() and ch not in " \xa0" for ch in s)
+    """whether tab / newline (or other non-space whitespace) separates words is not fixed by 'title under 5 words': the title is
+    unspecified exactly when the two readings (only space / NBSP separate words; any white space does) fall on different sides of the
+    threshold.  A piece that consists of white space only is a word under neither reading."""
+    a = len(normalize(s).split(" ")) if normalize(s) else 0
+    b = len(s.split())
+    return (a < 5) != (b < 5)
 
 
 TRUSTED = ["message texts are not compared, only (warning code, node)",
@@ -124,7 +128,8 @@ def tweak(t, rng, tg):
         nm = x[1]
         if nm == "title" and rng.random() < 0.8:
             x[2] = rng.choice([words(rng.choice([1, 4, 5, 6])), "  a  b\xa0c d  ", "a b c d\xa0e", "", " ",
-                               "a b c d\ne", "a b c\td e", "a b c d \n e", "a b c d e\n", "a\nb\nc\nd\ne f"])
+                               "a b c d\ne", "a b c\td e", "a b c d \n e", "a b c d e\n", "a\nb\nc\nd\ne f",
+                               "a b \n c d", "a b c \t d", "a \n b \n c", "one \n", " \n a b c d", "a b c d \x0b \n"])
         elif nm == "abstract" and rng.random() < 0.8:
             n = rng.choice([0, 19, 20, 21])
             k = rng.choice([1, 2, 3])
